@@ -322,10 +322,11 @@ impl Queryable for Mini {
         }
     }
     fn as_f64(&self) -> Option<f64> {
-        // serde_json: as_f64 is Some for every number (ints converted)
+        // Strict accessors: an integer is visible through as_i64 only (serde_json also
+        // answers as_f64 for integers; the trait does not require it and the engine has an
+        // explicit `as_i64() as f64` fallback - a strict view exercises that fallback).
         match self {
             Mini::Float(f) => Some(*f),
-            Mini::Int(i) => Some(*i as f64),
             _ => None,
         }
     }
@@ -469,6 +470,7 @@ pub fn stub_with_capacity_in_k8<T, A: Allocator>(capacity: usize, alloc: A) -> V
         return Vec::new_in(alloc);
     }
     let k = if sz <= 1 { K_BYTES } else if 8 * sz <= MAX_BLOCK { 8 } else { MAX_BLOCK / sz };
+    assert!(capacity <= (isize::MAX as usize) / sz, "Vec::with_capacity: capacity overflow (panics in the real allocator path)");
     kani::assert(capacity <= k, "VERIF-LIMIT capacity above constant K");
     let layout = Layout::array::<T>(k).unwrap();
     let ptr = alloc.allocate(layout).unwrap().as_ptr() as *mut T;
@@ -481,10 +483,12 @@ pub fn stub_with_capacity<T>(capacity: usize) -> Vec<T> {
 
 pub fn stub_with_capacity_in<T, A: Allocator>(capacity: usize, alloc: A) -> Vec<T, A> {
     let k = const_cap::<T>();
-    kani::assert(capacity <= k, "VERIF-LIMIT capacity above constant K");
     if core::mem::size_of::<T>() == 0 {
         return Vec::new_in(alloc);
     }
+    // the real Vec::with_capacity panics ("capacity overflow") when the byte size exceeds isize::MAX
+    assert!(capacity <= (isize::MAX as usize) / core::mem::size_of::<T>(), "Vec::with_capacity: capacity overflow (panics in the real allocator path)");
+    kani::assert(capacity <= k, "VERIF-LIMIT capacity above constant K");
     let layout = Layout::array::<T>(k).unwrap();
     let ptr = alloc.allocate(layout).unwrap().as_ptr() as *mut T;
     unsafe { Vec::from_raw_parts_in(ptr, 0, k, alloc) }
